@@ -297,6 +297,7 @@ impl C04 {
         fams.add("float specials in context", vec![SPECIALS.len() as u64, SPECIAL_CTX.len() as u64]);
         fams.add("digit-count modifiers", vec![DIGIT_SUBJECTS.len() as u64, DIGIT_COUNTS.len() as u64, DIGIT_TAILS.len() as u64]);
         fams.add("unit-list shapes with ans", vec![LIST_SHAPES.len() as u64]);
+        fams.add("numeral modes through the query path", vec![6, 5, 7, 4]);
         fams.add("conversion targets: `3 m -> T` for every small tree T", vec![gen_t.total()]);
         let rink_bin = std::env::var("RINK_BIN").ok().filter(|p| std::path::Path::new(p).exists());
         // CLI pass over the first families (soups up to length 2-3, ladders, 1/2-char strings)
@@ -420,6 +421,13 @@ impl C04 {
         }
         if name.starts_with("digit-count") {
             return Some(format!("{} -> digits {}{}", DIGIT_SUBJECTS[d[0] as usize], DIGIT_COUNTS[d[1] as usize], DIGIT_TAILS[d[2] as usize]));
+        }
+        if name.starts_with("numeral modes") {
+            let p = [1, 2, 5, 7, 11, 53][d[0] as usize];
+            let q = [3, 6, 7, 12, 48][d[1] as usize];
+            let m = ["digits 0", "digits 1", "digits 3", "", "sci", "eng", "frac"][d[2] as usize];
+            let b = [2, 11, 16, 36][d[3] as usize];
+            return Some(format!("{}|{} -> {} base {}", p, q, m, b));
         }
         if name.starts_with("unit-list shapes") {
             return Some(LIST_SHAPES[d[0] as usize].to_string());
